@@ -433,3 +433,127 @@ pub fn all_ops_basic() -> Vec<FeOp> {
         FeOp::CheckDeviceState,
     ]
 }
+
+/// Byte-asymmetric, pairwise distinct 64-bit patterns (any swap / shift / width error shows).
+pub fn pat64(k: u64) -> u64 {
+    0x0102_0304_0506_0708u64.wrapping_mul(2 * k + 1) ^ (k << 56) ^ 0x8070_6050_4030_2010
+}
+
+/// Argument lattice of the frontend API: (a) pattern assignments, (b) per-field boundary sweeps,
+/// (c) every variable length. `level` 0 = quick, 1 = thorough. Only arguments the API accepts.
+pub fn fe_variants(level: u8, seed: u64) -> Vec<FeOp> {
+    use crate::lattice::*;
+    let l64 = rotate(&u64_lattice(level, seed), seed);
+    let l16 = u16_lattice(level);
+    let qs: Vec<usize> = if level == 0 { vec![0, 1, 2, 127, 254, 255] } else { (0..=255).collect() };
+    let mut v = Vec::new();
+    v.extend([FeOp::GetFeatures, FeOp::SetOwner, FeOp::ResetOwner, FeOp::GetProtocolFeatures, FeOp::GetQueueNum, FeOp::ResetDevice, FeOp::GetMaxMemSlots, FeOp::GetShmemConfig, FeOp::CheckDeviceState, FeOp::SetBackendReqFd]);
+    v.extend([FeOp::SetDeviceStateFd(0), FeOp::SetDeviceStateFd(1)]);
+    for &x in &l64 {
+        v.push(FeOp::SetFeatures(x));
+        v.push(FeOp::SetProtocolFeatures(x));
+    }
+    // memory tables: every region count 1..=32 with pattern values
+    for n in 1..=32usize {
+        let rs = (0..n).map(|i| (pat64(4 * i as u64), pat64(4 * i as u64 + 1) | 1, pat64(4 * i as u64 + 2), pat64(4 * i as u64 + 3), i)).collect();
+        v.push(FeOp::SetMemTable(rs));
+    }
+    // per-field sweeps on one region (size must be non-zero for the API to accept it)
+    for &x in &l64 {
+        v.push(FeOp::SetMemTable(vec![(x, 0x1000, 0x7f00_0000_0000, 0, 0)]));
+        v.push(FeOp::SetMemTable(vec![(0x1000, 0x1000, x, 0, 1)]));
+        v.push(FeOp::SetMemTable(vec![(0x1000, 0x1000, 0x7f00_0000_0000, x, 2)]));
+        v.push(FeOp::AddMemRegion(x, pat64(1) | 1, pat64(2), pat64(3), 0));
+        v.push(FeOp::AddMemRegion(pat64(4), pat64(5) | 1, x, pat64(6), 1));
+        v.push(FeOp::AddMemRegion(pat64(7), pat64(8) | 1, pat64(9), x, 2));
+        v.push(FeOp::RemoveMemRegion(x, pat64(1) | 1, pat64(2), pat64(3)));
+        v.push(FeOp::RemoveMemRegion(pat64(4), pat64(5) | 1, pat64(6), x));
+        if x != 0 {
+            v.push(FeOp::SetMemTable(vec![(0x1000, x, 0x7f00_0000_0000, 0, 3)]));
+            v.push(FeOp::AddMemRegion(pat64(10), x, pat64(11), pat64(12), 3));
+            v.push(FeOp::RemoveMemRegion(pat64(10), x, pat64(11), pat64(12)));
+            v.push(FeOp::SetLogBase(0, Some((x, pat64(13)))));
+            v.push(FeOp::SetInflightFd(x, pat64(14), 3, 7));
+        }
+        v.push(FeOp::SetLogBase(0, Some((pat64(15) | 1, x))));
+        v.push(FeOp::GetInflightFd(x, pat64(16), 5, 9));
+        v.push(FeOp::GetInflightFd(pat64(17), x, 5, 9));
+        v.push(FeOp::SetInflightFd(pat64(18) | 1, x, 3, 7));
+        v.push(FeOp::SetVringAddr(1, 0, x, pat64(19), pat64(20), None));
+        v.push(FeOp::SetVringAddr(1, 1, pat64(21), x, pat64(22), Some(pat64(23))));
+        v.push(FeOp::SetVringAddr(2, 1, pat64(24), pat64(25), x, Some(pat64(26))));
+        v.push(FeOp::SetVringAddr(3, 1, pat64(27), pat64(28), pat64(29), Some(x)));
+    }
+    for &n in &l16 {
+        v.push(FeOp::SetVringNum(1, n));
+        v.push(FeOp::SetVringBase(2, n));
+        if n != 0 {
+            v.push(FeOp::GetInflightFd(pat64(30), pat64(31), n, 11));
+            v.push(FeOp::GetInflightFd(pat64(30), pat64(31), 11, n));
+            v.push(FeOp::SetInflightFd(pat64(32) | 1, pat64(33), n, 13));
+            v.push(FeOp::SetInflightFd(pat64(32) | 1, pat64(33), 13, n));
+        }
+    }
+    for &q in &qs {
+        v.push(FeOp::SetVringNum(q, 0x1234));
+        v.push(FeOp::SetVringBase(q, 0x4321));
+        v.push(FeOp::GetVringBase(q));
+        v.push(FeOp::SetVringCall(q));
+        v.push(FeOp::SetVringKick(q));
+        v.push(FeOp::SetVringErr(q));
+        v.push(FeOp::SetVringEnable(q, q % 2 == 0));
+        v.push(FeOp::SetVringAddr(q, (q % 2) as u32, pat64(40), pat64(41), pat64(42), Some(pat64(43))));
+    }
+    // config window: offsets/lengths over the whole window (payload bounded by the 4096-byte message)
+    let offs: Vec<u32> = vec![0, 1, 2, 0xff, 0x100, 0x101, 0x7ff, 0x800, 0xffe, 0xfff];
+    let lens: Vec<u32> = if level == 0 { vec![1, 2, 3, 8, 255, 256, 257, 4083, 4084] } else { (1..=4084).collect() };
+    for &o in &offs {
+        for &l in &lens {
+            if o as u64 + l as u64 <= 0x1000 {
+                for f in 0..4u32 {
+                    if level == 0 && f != 0 && l > 8 && l < 4083 {
+                        continue;
+                    }
+                    if level == 1 && f != 0 && l % 97 != 0 && l > 16 && l < 4080 {
+                        continue;
+                    }
+                    v.push(FeOp::GetConfig(o, l, f));
+                    v.push(FeOp::SetConfig(o, f, l as usize));
+                }
+            }
+        }
+    }
+    for k in 0..6u64 {
+        let mut u = [0u8; 16];
+        u[..8].copy_from_slice(&pat64(50 + k).to_ne_bytes());
+        u[8..].copy_from_slice(&pat64(60 + k).to_ne_bytes());
+        v.push(FeOp::GetSharedObject(u));
+    }
+    let mut one = [0u8; 16];
+    one[15] = 1;
+    v.push(FeOp::GetSharedObject(one));
+    let mut almost = [0xffu8; 16];
+    almost[0] = 0xfe;
+    v.push(FeOp::GetSharedObject(almost));
+    v.push(FeOp::SetLogBase(0x1234_5678_9abc_def0, Some((0x1000, 0))));
+    v
+}
+
+impl FeOp {
+    /// Is the request this call produces valid by the protocol's rules (reference predicates)?
+    /// The frontend API accepts more than that (e.g. unaligned ring addresses, wrapping regions).
+    pub fn wire_valid(&self) -> bool {
+        use crate::model::validators as v;
+        match self {
+            FeOp::SetMemTable(rs) => !rs.is_empty() && rs.len() <= 32 && rs.iter().all(|r| v::region_valid(r.0, r.1, r.2, r.3)),
+            FeOp::AddMemRegion(g, s, u, o, _) | FeOp::RemoveMemRegion(g, s, u, o) => v::region_valid(*g, *s, *u, *o),
+            FeOp::SetVringAddr(_, f, d, u, a, _) => v::vring_addr_valid(*f, *d, *u, *a),
+            FeOp::SetLogBase(_, Some((s, o))) => v::log_valid(*s, *o),
+            FeOp::GetConfig(o, s, f) => v::config_valid(*o, *s, *f),
+            FeOp::SetConfig(o, f, l) => v::config_valid(*o, *l as u32, *f),
+            FeOp::GetInflightFd(_, _, n, q) | FeOp::SetInflightFd(_, _, n, q) => *n != 0 && *q != 0,
+            FeOp::GetSharedObject(u) => v::uuid_bytes_valid(u),
+            _ => true,
+        }
+    }
+}
